@@ -6,6 +6,7 @@ from __future__ import annotations
 import ast
 from .canon import canonicalise
 from .inline import inline_new_helpers, package_helpers, module_bindings
+from .renames import normalise as normalise_names
 import hashlib
 import os
 from dataclasses import dataclass, field
@@ -260,6 +261,7 @@ class Program:
         ambiguous = {n for n, k in counts.items() if k > 1}
         def short(nm: str) -> str:
             return nm.replace(PKG + ".", "", 1) if nm != PKG else ""
+        self.renamed = normalise_names([(short(n_), t_, k_) for n_, _p, _s, t_, k_ in parsed])
         pkg_funcs, pkg_meths = package_helpers([(short(n_), t_) for n_, _p, _s, t_, _k in parsed], ambiguous)
         # the helper bodies are copied from the trees as parsed: inline in dependency-free order by working on pristine copies of the helper bodies
         import copy as _copy
